@@ -41,6 +41,12 @@ RULE = (
     "boundary / closing-selector / toggle rules; and, for time and time-or-count, an operator scheduler whose cancellation "
     "of relative timers is ineffective (scheduler docs: cancellation is best effort), under which the same reference must "
     "hold (a cancelled window timer that fires anyway must not open or close anything).  "
+    "Round 4: (i) half of the non-group_join generated cases put take(k), k in 1..3, on the "
+    "window-of-windows sequence, so the outer subscription ends at the emission of the k-th window while windows are still "
+    "observed; the first k windows must still have exactly the contents and the end their rule dictates (reference "
+    "truncated to k windows, outer completion at the k-th window's emission; no buffer differential for these cases); "
+    "(ii) a third of the closing / left-duration observables are reactivex.timer(dt) built without a scheduler, which "
+    "must run on the scheduler the pipeline was subscribed with.  "
     "Non-trivial: >=2 windows with >=1 element each (first subscription).  Distinct = distinct case JSON."
 )
 ASSUMPTIONS = [
@@ -50,6 +56,7 @@ ASSUMPTIONS = [
     "closing / duration / boundary / openings observables never error (not part of the property statement)",
     "buffer_with_count drops empty buffers (its implementation filters them), so empty lists are ignored on both sides for the count form only",
     "disposing a scheduled timer is best effort (documented on every schedule_* method): with the case flag nocancel a timer the operator cancels at its own due instant (it has fired and cannot be recalled) still runs, while one cancelled earlier is cancelled for good; the window rule is still required to hold",
+    "an emitted, observed window follows its rule whether or not the outer window-of-windows subscription is still alive (the statement ties a window's contents and end to its rule only)",
     "cases reaching the lab's same-instant spin guard or the work budget are discarded as inconclusive",
 ]
 
@@ -125,6 +132,12 @@ def _closing_obs(lab, c):
         import reactivex
 
         return reactivex.empty()
+    if c.get("via") == "timer":
+        # time-based closing built WITHOUT an explicit scheduler (docs: window_when(lambda: reactivex.timer(0.5))):
+        # it runs on the scheduler the pipeline was subscribed with
+        import reactivex
+
+        return reactivex.timer(lab.rel(c["dt"]))
     return lab.cold([[c["dt"], c.get("kind", "N"), "i0" if c.get("kind", "N") == "N" else None]])
 
 
@@ -222,6 +235,9 @@ def _execute(case, variant):
 
         source = src.pipe(ops.do_action(on_error=mark, on_completed=mark))
     obs = source.pipe(_operator(lab, case, variant, marks))
+    if case.get("take") and variant == "window":
+        # the outer window-of-windows subscription ends early (downstream take(k)) while windows are still observed
+        obs = obs.pipe(ops.take(case["take"]))
     probes = _subscribe_all(lab, case, obs)
     lab.run(until=_horizon(case))
     if lab.escaped is not None:
@@ -347,6 +363,17 @@ def _classes(case, obs_w, ties, choice):
         cls.append("late-subscribe")
     if case.get("clock") == "hist":
         cls.append("clock:hist")
+    if case.get("take"):
+        cls.append("outer-take")
+        oe = obs_w["outer_end"]
+        if oe and oe[1] == "C":
+            late = [w for w in obs_w["wins"] if w["end"] is None or w["eseq"] > obs_w["outer_seq"]]
+            if late:
+                cls.append("window-still-open-when-outer-subscription-ended")
+            if any(w["end"] and w["end"][1] == "C" and w["items"] and w["end"][0] > oe[0] for w in late):
+                cls.append("window-closed-by-its-rule-after-outer-ended")
+    if any(c.get("via") == "timer" and isinstance(c["dt"], (int, float)) for key in ("closings", "ldur") for c in case.get(key, ())):
+        cls.append("closing:scheduler-less-timer")
     if case.get("nocancel"):
         cls.append("best-effort-cancellation-scheduler")
     if case.get("td_args") and case.get("clock", "test") == "test":
@@ -376,6 +403,7 @@ def _nontrivial(obs_w):
 
 
 def _check_count(case, obs_w, eff, sub):
+    take = case.get("take")
     count = case["count"]
     skip = case["skip"] if case["skip"] is not None else count
     elems = [[t, p] for t, k, p in eff if k == "N"]
@@ -387,6 +415,10 @@ def _check_count(case, obs_w, eff, sub):
         need = 0
     # window 0 always exists (opened at subscription)
     need = max(need, 1)
+    if take:
+        need = min(need, take)
+        if len(wins) > take:
+            return "window-count", f"take({take}) let {len(wins)} windows through"
     if len(wins) < need:
         return "window-count", f"expected at least {need} windows, got {len(wins)}"
     for k, w in enumerate(wins):
@@ -406,7 +438,11 @@ def _check_count(case, obs_w, eff, sub):
         t_hi = elems[lo][0] if lo < n else (term[0] if term else None)
         if w["open"] < t_lo or (t_hi is not None and w["open"] > t_hi):
             return "open-time", f"window {k}: opened at {w['open']}, expected within [{t_lo}, {t_hi}]"
-    if obs_w["outer_end"] != term:
+    if take and len(wins) == take:
+        exp_outer = [wins[take - 1]["open"], "C", None]
+        if obs_w["outer_end"] != exp_outer:
+            return "outer-end", f"outer sequence behind take({take}) ended with {obs_w['outer_end']}, expected {exp_outer}"
+    elif obs_w["outer_end"] != term:
         return "outer-end", f"outer sequence ended with {obs_w['outer_end']}, source with {term}"
     return None, ""
 
@@ -432,13 +468,26 @@ def _sim_for(case, eff, sub, mode=TOGGLE_SOURCE_COMPLETION_ENDS_WINDOWS):
     raise AssertionError(f)
 
 
-def _match(sim, got, cap=512):
+def _take_view(out, k):
+    """What a subscriber behind take(k) on the outer sequence observes: the first k windows - each with the contents
+    and the end its rule dictates, the outer subscription's end does not change an emitted window's rule - and the
+    outer sequence completed at the emission of the k-th window (or ended as usual if fewer windows are emitted)."""
+    res = dict(out)
+    res["wins"] = out["wins"][:k]
+    if len(out["wins"]) >= k:
+        res["outer_end"] = [out["wins"][k - 1]["open"], "C", None]
+    return res
+
+
+def _match(sim, got, cap=512, take=None):
     """Returns (matched choices | None, first outcome, ties, capped)."""
     first = None
     ties = 0
     for choice, out in refwin.outcomes(sim, cap):
         if choice is None:
             return None, first, ties, True
+        if take:
+            out = _take_view(out, take)
         if first is None:
             first = out
         ties = max(ties, out.get("ties", 0))
@@ -478,13 +527,13 @@ def _judge_windows(case, i, sub, p, marks):
             if term_seq is not None:
                 # only windows opened before the source's terminal are judged
                 judged = {"wins": [dict(w) for w, ow in zip(got["wins"], obs_w["wins"]) if ow["oseq"] < term_seq], "outer_end": got["outer_end"]}
-            choice, first, ties, capped = _match(_sim_for(case, eff, sub), judged)
+            choice, first, ties, capped = _match(_sim_for(case, eff, sub), judged, take=case.get("take"))
             if choice is None and capped:
                 return SKIP("too-many-ties"), obs_w, []
             if choice is None:
                 cls = _classes(case, obs_w, ties, None) + _resub_classes(case, i)
                 if f == "toggle":
-                    alt, _, _, _ = _match(_sim_for(case, eff, sub, mode=False), got)
+                    alt, _, _, _ = _match(_sim_for(case, eff, sub, mode=False), got, take=case.get("take"))
                     if alt is not None:
                         # the registered finding keeps its signature whichever subscription shows it
                         return (
@@ -525,6 +574,9 @@ def _run(case):
             return res
         runs.append(obs_w)
         cls = cls + [x for x in c if x not in cls] + _resub_classes(case, i)
+    if case.get("take"):
+        # take(k) on a buffer stream means something else (k buffers): no differential for these cases
+        return OK(_nontrivial(runs[0]), cls)
     # differential: buffers are the contents of the windows (per subscription)
     lab2, probes2, _ = _execute(case, "buffer")
     if lab2.inconclusive:
@@ -657,7 +709,10 @@ def _src(tier):
 
 
 _sub = st.sampled_from([0, 0, 0, 2, 3])
-_closing = st.fixed_dictionaries({"dt": st.sampled_from([0, 1, 1, 2, 3, 4, 6, None]), "kind": st.sampled_from(["N", "N", "C"])})
+_closing = st.fixed_dictionaries(
+    {"dt": st.sampled_from([0, 1, 1, 2, 3, 4, 6, None]), "kind": st.sampled_from(["N", "N", "C"]), "via": st.sampled_from(["timeline", "timeline", "timer"])}
+)
+_take = st.sampled_from([None, None, None, 1, 2, 3])
 _closings = st.lists(_closing, min_size=1, max_size=3).filter(lambda cs: any(c["dt"] != 0 for c in cs))
 _ints = ["n:0", "n:1", "n:2", "n:3"]
 _resub = st.sampled_from([None, None, None, None, {"mode": "after"}, {"mode": "after"}, {"mode": "overlap", "at": 1}, {"mode": "overlap", "at": 3}])
@@ -667,6 +722,10 @@ _shifts = [None, 1, 1, 2, 2, 3, 3, 4, 5, 6, 8, 0.5, 1.5, 2.5]
 
 
 def _fix_resub(case):
+    if case.get("take") is None:
+        case.pop("take", None)
+    else:
+        case["resub"] = None
     if case.get("resub") is None:
         case.pop("resub", None)
     elif case["form"] == "when":
@@ -676,6 +735,8 @@ def _fix_resub(case):
 
 def _gen_form(f, tier="quick"):
     base = {"form": st.just(f), "src": _src(tier), "sub": _sub, "resub": _resub}
+    if f != "gjoin":
+        base["take"] = _take
     if f == "count":
         big = [7, 8, 9, 12]
         base.update(count=st.sampled_from([1, 2, 3, 4, 5, 6] * 2 + big), skip=st.sampled_from([None, 1, 2, 3, 4, 5, 6] * 2 + big))
